@@ -4,6 +4,7 @@ CONSTANTS
   NC = 2
   NTP = 3
   NT = 1
+  MaxHeads = 3
   MaxWants = 1
   Modes = {"detailed"}
   IncTag = {TRUE}
